@@ -87,9 +87,49 @@ theorem LinesInv_redraw {c : Cfg} (h : LinesInv c) : LinesInv c.redraw := by
 theorem LinesInv_trace {c : Cfg} (t : Tr) (h : LinesInv c) (ht : t.lineOK c.log) : LinesInv (c.trace t) :=
   ⟨(QTL_cons_tr _ _ _ _).mpr ⟨ht, h.qt⟩, h.code, h.log⟩
 
+theorem sigOK_lit (log : List Ev) (id : Nat) (cls : Cls) (prio : Int) (src : Src) (h : cls.isInput = false) :
+    sigOK log { id := id, cls := cls, prio := prio, src := src } :=
+  sigOK_of_not_carries (carriesLine_of_not_input h)
+
+theorem sigOK_newSig (log : List Ev) (c : Cfg) (cls : Cls) (prio : Int) (src : Src) (h : cls.isInput = false) :
+    sigOK log (c.newSig cls prio src).1 :=
+  sigOK_of_not_carries (carriesLine_of_not_input h)
+
+/-- proves `QTL X.L.queues X.tr log` for `X` built from a configuration satisfying it by the primitive
+operations -/
+macro "inp_qtl" : tactic => `(tactic|
+  repeat' (first
+    | assumption
+    | (with_reducible refine QTL_enqueue ?_ ?_)
+    | (with_reducible refine QTL_redraw ?_)
+    | (with_reducible refine QTL_excEnq _ ?_)
+    | (with_reducible refine QTL_addSource _ _ ?_)
+    | (with_reducible refine QTL_raise _ ?_)
+    | (with_reducible refine sigOK_newSig _ _ _ _ _ rfl)
+    | (with_reducible refine sigOK_lit _ _ _ _ _ ?_)
+    | (simp only [push_L, push_tr, push_log, trace_L, trace_tr, trace_log, write_L, write_tr, write_log,
+        newSig_L, newSig_tr, newSig_log, enqueue_log, redraw_log, raise_log, QTL_cons_tr, QTL_append_empty,
+        Tr.lineOK, true_and, and_true, final_ok])))
+
+macro "inp_ln_base" : tactic => `(tactic|
+  (refine ⟨?_, ?_, ?_⟩
+   · inp_qtl
+   · simp [*, Instr.lineOK, codeOK_acts, Cfg.write, Cfg.newSig, sigOK_lit, Cls.isInput]
+   · simp [*, Cfg.write, Cfg.newSig]))
+
+macro "inp_ln_leaf" : tactic => `(tactic| first
+    | ((with_reducible apply LinesInv_raise); inp_ln_base; done)
+    | (inp_ln_base; done))
+
 theorem LinesInv_doAct (c : Cfg) (a : Act) (ha : a.forges = false) (h : LinesInv c) : LinesInv (final (doAct c a)) := by
+  obtain ⟨hq, hcode, hlog⟩ := h
   unfold doAct
-  split <;> (try dsimp only)
-  all_goals sorry
+  split <;> (try dsimp only) <;> (try simp only [final_ok]) <;>
+    first
+    | inp_ln_leaf
+    | (split <;> (try simp only [final_ok]) <;> inp_ln_leaf)
+    | skip
+  · simp only [Act.forges] at ha
+    exact LinesInv_push _ ⟨hq, hcode, hlog⟩ (by simp [Instr.lineOK, sigOK_lit _ _ _ _ _ ha])
 
 end Simpleline.Input
